@@ -393,6 +393,9 @@ func runC16(c *Ctx) {
 		steps := 5 + r.Intn(12)
 		for s := 0; s < steps; s++ {
 			name := fmt.Sprintf("L%d", r.Intn(4))
+			if r.Chance(1, 4) { // names that differ in case only, or that read as a pattern over the others
+				name = gen.Pick(r, []string{"l0", "l1", "L_", "L%", "L-", "%", "_0"})
+			}
 			switch k := r.Intn(20); {
 			case k < 5:
 				kind := gen.Pick(r, []string{"smb", "ext"})
